@@ -121,40 +121,92 @@ def _imputer(run, prog, cls):
                 run.fail("KEYS", f"{cls.name}.keys", f"{s.path}:{ev.line}", fq, f"sampled = {ir.show_nl(alt)[:120]}",
                          f"the sampled values are not a dict built over the requested subset: {ir.show_nl(alt)[:200]}")
                 continue
-            ok = True
-            how = subset_iter(db.over, subset) if db.over is not None else None
-            if how is None:
-                ok = False
-                run.fail("KEYS", f"{cls.name}.keys", f"{s.path}:{ev.line}", fq,
-                         f"keys range over {ir.show_nl(db.over) if db.over else 'nothing'}",
-                         f"the sampled dict must be keyed by exactly the requested subset; its keys range over "
-                         f"{ir.show_nl(db.over) if db.over else 'no loop'}")
-            if db.kind == "comp" and alt[6]:
-                ok = False
-                run.fail("KEYS", f"{cls.name}.keys", f"{s.path}:{ev.line}", fq, f"filtered keys {ir.show_nl(alt[6][0])}",
-                         f"requested features are filtered by `{ir.show_nl(alt[6][0])}`")
-            if db.kind == "accum" and db.init_items:
-                ok = False
-                run.fail("KEYS", f"{cls.name}.keys", f"{s.path}:{ev.line}", fq, "sampled dict pre-populated",
-                         "the sampled dict starts with foreign entries")
-            for key, val, ectx, eev in db.entries:
-                if key != ("elem", db.lid):
-                    ok = False
-                    run.fail("KEYS", f"{cls.name}.keys", f"{s.path}:{eev.line if eev else ev.line}", fq,
-                             f"foreign key {ir.show_nl(key)}", f"a key other than the subset element is written: {ir.show_nl(key)}")
-                if ectx is not None and ectx.guards and any(g not in ctx.guards for g in ectx.guards
-                                                             if not _is_mode_guard(g)):
-                    extra = [g for g in ectx.guards if g not in ctx.guards and not _is_mode_guard(g)]
-                    if extra and not _selects_source(extra):
-                        ok = False
-                        run.fail("KEYS", f"{cls.name}.keys", f"{s.path}:{eev.line}", fq,
-                                 f"conditional entry under {ir.show_nl(extra[0])}",
-                                 f"a requested feature is only imputed when {ir.show_nl(extra[0])}")
-            if ok:
-                run.ok("KEYS", f"{cls.name}.keys", f"sampled dict keyed by the subset element over {ir.show_nl(db.over)}")
-            _values(run, prog, cls, s, fq, db, cond, subset, x, n, ctx, ev)
+            cases = _by_strategy(db, cond)
+            if len(cases) > 1:
+                for cond_m, db_m in cases:
+                    _keys_and_values(run, prog, cls, s, fq, db_m, cond_m, subset, x, n, ctx, ev, alt)
+                continue
+            _keys_and_values(run, prog, cls, s, fq, db, cond, subset, x, n, ctx, ev, alt)
     _count(run, prog, cls, s, fq, mf, n, rng)
     _nomut(run, prog, cls, s, fq, x, subset)
+
+
+def _strategy_atom(t):
+    return t[0] == "cmp" and t[1] in ("==", "is") and ("const", "joint") in (t[2], t[3]) and \
+        any(x[0] == "field0" for x in (t[2], t[3]))
+
+
+def _by_strategy(db, cond):
+    """The dict build seen under each sampling strategy when the strategy is not chosen between two dict values but
+    inside one build (guards around the entries, selections inside the values): [(condition, DictBuild)]."""
+    from .boolalg import literal
+    from .common import DictBuild
+    if any(_strategy_atom(literal(c)[0]) for c in cond):
+        return [(cond, db)]
+    atoms = []
+    for key, val, ectx, eev in db.entries:
+        for g in (ectx.guards if ectx is not None else ()):
+            a, _ = literal(g)
+            if _strategy_atom(a) and a not in atoms:
+                atoms.append(a)
+        for t in ir.subterms(val):
+            if _strategy_atom(t) and t not in atoms:
+                atoms.append(t)
+    if len(atoms) != 1:
+        return [(cond, db)]
+    atom = atoms[0]
+    out = []
+    for pol in (True, False):
+        lit = atom if pol else ir.negate(atom)
+        entries, over, lid = [], None, None
+        for key, val, ectx, eev in db.entries:
+            guards = ectx.guards if ectx is not None else ()
+            if any(literal(g) == (atom, not pol) for g in guards):
+                continue                # an entry written only under the other strategy
+            entries.append((key, ir.assume(val, [lit]), ectx, eev))
+            if key[0] == "elem" and ectx is not None:
+                for l in ectx.loops:
+                    if l.lid == key[1]:
+                        over, lid = l.iter, l.lid
+        if db.kind == "comp":
+            over, lid = db.over, db.lid
+        out.append((tuple(cond) + (lit,), DictBuild(db.term, entries, over, lid, db.kind, db.init_items)))
+    return out
+
+
+def _keys_and_values(run, prog, cls, s, fq, db, cond, subset, x, n, ctx, ev, alt):
+    ok = True
+    how = subset_iter(db.over, subset) if db.over is not None else None
+    if how is None:
+        ok = False
+        run.fail("KEYS", f"{cls.name}.keys", f"{s.path}:{ev.line}", fq,
+                 f"keys range over {ir.show_nl(db.over) if db.over else 'nothing'}",
+                 f"the sampled dict must be keyed by exactly the requested subset; its keys range over "
+                 f"{ir.show_nl(db.over) if db.over else 'no loop'}")
+    if db.kind == "comp" and alt[6]:
+        ok = False
+        run.fail("KEYS", f"{cls.name}.keys", f"{s.path}:{ev.line}", fq, f"filtered keys {ir.show_nl(alt[6][0])}",
+                 f"requested features are filtered by `{ir.show_nl(alt[6][0])}`")
+    if db.kind == "accum" and db.init_items:
+        ok = False
+        run.fail("KEYS", f"{cls.name}.keys", f"{s.path}:{ev.line}", fq, "sampled dict pre-populated",
+                 "the sampled dict starts with foreign entries")
+    for key, val, ectx, eev in db.entries:
+        if key != ("elem", db.lid):
+            ok = False
+            run.fail("KEYS", f"{cls.name}.keys", f"{s.path}:{eev.line if eev else ev.line}", fq,
+                     f"foreign key {ir.show_nl(key)}", f"a key other than the subset element is written: {ir.show_nl(key)}")
+        if ectx is not None and ectx.guards and any(g not in ctx.guards for g in ectx.guards
+                                                     if not _is_mode_guard(g)):
+            extra = [g for g in ectx.guards if g not in ctx.guards and not _is_mode_guard(g)]
+            if extra and not _selects_source(extra):
+                ok = False
+                run.fail("KEYS", f"{cls.name}.keys", f"{s.path}:{eev.line}", fq,
+                         f"conditional entry under {ir.show_nl(extra[0])}",
+                         f"a requested feature is only imputed when {ir.show_nl(extra[0])}")
+    if ok:
+        run.ok("KEYS", f"{cls.name}.keys", f"sampled dict keyed by the subset element over {ir.show_nl(db.over)}")
+    _values(run, prog, cls, s, fq, db, cond, subset, x, n, ctx, ev)
 
 
 def _is_mode_guard(g):
